@@ -172,7 +172,11 @@ class InputTypesGenerator:
             )
             # two GraphQL fields mangled to one Python name (fooBar / foo_bar) stay two
             # fields: the later one gets "_" appended, its alias keeps the GraphQL name
-            while name in used_names:
+            # ... nor may it be the GraphQL name of another field: with populate_by_name
+            # this field would read the value given for that one
+            while name in used_names or (
+                name != org_name and name in definition.fields
+            ):
                 name += "_"
             used_names.add(name)
             annotation, field_type = parse_input_field_type(
